@@ -260,7 +260,7 @@ func Universe(o UniverseOpts) *Schema {
 			m("tri", N("String"), &ArgDef{Name: "a", Type: N("String")}, &ArgDef{Name: "b", Type: N("String")}, &ArgDef{Name: "c", Type: N("String")}),
 			m("rev", N("String"), &ArgDef{Name: "x", Type: N("String")}, &ArgDef{Name: "y", Type: N("String")}),
 			m("pick", N("String"), &ArgDef{Name: "i", Type: N("Int")}, &ArgDef{Name: "e", Type: N("Color")}, &ArgDef{Name: "in", Type: N("Filter")},
-				&ArgDef{Name: "ids", Type: L(NN(N("ID")))}, &ArgDef{Name: "ss", Type: L(N("String"))}),
+				&ArgDef{Name: "ids", Type: L(NN(N("ID")))}, &ArgDef{Name: "ss", Type: L(N("String"))}, &ArgDef{Name: "fs", Type: L(N("Filter"))}, &ArgDef{Name: "m", Type: L(L(N("Int")))}),
 			m("mi", N("Int")), m("mkid", N("A")), m("mkids", L(N("A"))), m("mnamed", N("Named")),
 		}
 	}
